@@ -310,6 +310,34 @@ def run(ctx):
                           "the inflate worker does not send the pooled buffer together with its result: on a parse error the buffer is dropped "
                           "and the reader thread has one buffer less for every failed block", rt.loc())
 
+
+    ctx.rule("C03.R11", "same blocks as the single-threaded writer: MultithreadedWriter::write hands the caller's bytes to the STAGING buffer only "
+                        "(len / min / index / extend_from_slice); no other callee receives a value derived from the caller's slice — a block cut "
+                        "straight from the caller's slice starts where the staged bytes end, not where the single-threaded writer's block does")
+    fw11 = ctx.anchor("C03.R11", "<noodles_bgzf::io::multithreaded_writer::MultithreadedWriter<W> as std::io::Write>::write")
+    if fw11 is not None:
+        ctx.saw_fn(fw11)
+        ALLOW11 = re.compile(r"slice::<impl \[T\]>::(len|is_empty)$|cmp::Ord::min$|cmp::min$|ops::index::Index<.*::index$|"
+                             r"bytes_mut::BytesMut::(extend_from_slice|put_slice)$|buf::buf_mut::BufMut::put_slice$|slice::<impl \[T\]>::(split_at|get)$")
+        staged, other = 0, []
+        for b11, c11 in fw11.calls():
+            fed = any(C.op_local(a) == 2 or R.derives_from_local(fw11, a, 2, through_calls=True) for a in c11["args"])
+            if not fed:
+                continue
+            if ALLOW11.search(c11.get("f") or ""):
+                staged += 1 if re.search(r"extend_from_slice$|put_slice$", c11.get("f") or "") else 0
+            else:
+                other.append((b11, c11.get("f") or ""))
+        if other:
+            ctx.violation("C03.R11", "C03.R11/block-from-caller-slice/" + fw11.key,
+                          "MultithreadedWriter::write passes bytes of the caller's slice to %s instead of staging them: the block boundaries of "
+                          "the multithreaded file then depend on what was staged before and differ from the single-threaded writer's" % other[0][1].split("::")[-1],
+                          fw11.loc(other[0][0]))
+        elif not staged:
+            ctx.violation("C03.R11", "C03.R11/ANCHOR-MISSING/write/staging", "MultithreadedWriter::write no longer stages the caller's bytes", fw11.loc())
+        else:
+            ctx.ok("C03.R11", fw11.key, "the caller's bytes reach only the staging buffer", fw11.loc())
+
     ctx.rule("C03.R8", "A3 typestate after seeks (the C02.R1 instance for the MT reader): seek_to_virtual_position positions the in-block cursor only "
                        "after this very seek repositioned the source and loaded the block — no shortcut that keeps the current block")
     mts = "<noodles_bgzf::io::multithreaded_reader::MultithreadedReader<R> as noodles_bgzf::io::seek::Seek>::seek_to_virtual_position"
